@@ -22,6 +22,16 @@ CHECKS = {
          "LEA results for every ModRM/SIB/REX.XB/0x67/segment shape and the location of bytes touched by MOV-family probes equal the CPU's, with steered and wrap-around register values.", HW_NOTE),
  "C06": ("hw", "differential runtime monitoring against the CPU (ptrace single-step oracle) with fault-steered inputs", "2.1, 4/C06",
          "step() returns Err exactly when the CPU raises a fault (SIGFPE/SIGSEGV/SIGBUS/SIGILL) for implemented forms: dividends around the quotient-overflow boundary, operands at area edges, read-only, unmapped, non-canonical and misaligned positions.", HW_NOTE),
+ "C07": ("model", "runtime monitoring of call histories against a reference register file (model written from the SDM), full read-back after every call", "2.2, 4/C07",
+         "Every reg_write_*/reg_read_* call of generated histories is mirrored on a 16x64-bit reference register file; after every call all 68 views + RIP are read back and compared, and invalid calls (value too large, wrong width or class) must return Err with nothing changed. Single-write and rejection layers are enumerated completely.", MODEL_NOTE),
+ "C08": ("model", "runtime monitoring of access histories against a reference byte map, complete area-list comparison after every operation", "2.2, 4/C08",
+         "All typed/byte API accessors and guest MOV/MOVUPS loads and stores over random layouts (adjacent areas, areas at 2^63 and ending at 2^64) with edge addresses and extreme lengths; results and the complete memory image must equal a little-endian reference byte map after every operation; failed accesses must not panic and must change nothing.", MODEL_NOTE),
+ "C09": ("model", "runtime monitoring: exhaustive mask x access-path enumeration plus mem_prot histories and ELF-loaded machines against a 3-bit permission model", "2.2, 4/C09",
+         "Each of 22 access paths (API, guest load/store/RMW, MOVUPS, PUSH, POP, CALL, RET, fetch) is exercised under all 8 masks on fresh areas, the constructor's code area, after mid-history mem_prot changes and on ELF-loaded segments; a missing needed bit must give Err with the area list unchanged; success is only demanded for masks real paging can express.", MODEL_NOTE),
+ "C10": ("model", "runtime monitoring of allocation histories with an invariant hook (pairwise-disjoint area list) and an interval-set transition model after every call", "2.2, 4/C10",
+         "After every creation / anywhere / stack / resize / mem_prot / brk call the area list is walked: pairwise disjoint, lengths consistent, untouched areas byte-identical, overlap requests rejected, anywhere allocations fresh and correctly filled, resize succeeds iff no collision and keeps prefix / zero-fills growth. Non-termination is caught by the supervisor's progress watchdog and confirmed alone.", MODEL_NOTE),
+ "C17": ("model", "runtime monitoring: guest-side observation (stepped POP instructions) of the entry frame against the System V layout, area-list hook for placement", "2.2, 4/C17",
+         "For generated argv/envp lists, stack sizes and machines, the frame is observed the way a guest does (POP, byte-wise string reads) and compared with argc / pointers / NULLs / strings; alignment, freshness, writability, disjointness from the program image and the stack space below RSP are checked through the area-list hook.", MODEL_NOTE),
 }
 NOT_YET = {}
 
